@@ -9,6 +9,11 @@ BO_S == <<1, 2, 4>>                       \* back-off 50/100/200 ms
 SK_All == {"stop", "ctxdel"}
 SK_Stop == {"stop"}
 SK_Del == {"ctxdel"}
+SK_Abort == {"ctxabort", "stop"}
+SK_Every == {"stop", "ctx", "ctxdel", "ctxabort"}
+OK_Del == {"del"}
+OK_Put == {"other", "as", "malformed", "empty"}
+OK_All == {"del", "other", "as", "malformed", "empty"}
 Sym == Permutations(Inst)
 NoFaults == {}
 F_Fail == {"fail"}
@@ -28,6 +33,13 @@ HN_A(n) == [i \in Inst |-> IF i = "A" THEN n ELSE 0]
 HN2 == HN_A(2)
 HN3 == HN_A(3)
 CONN_A == [i \in Inst |-> i = "A"]
+
+\* vacuity probes: expected to be VIOLATED (they show that the ghosts of the timed invariants are exercised)
+Probe_C10 == \A j \in Inst : (el[j].preSince >= 0 /\ CanPreempt(j)) => now <= el[j].preSince + 4
+Probe_C10b == \A j \in Inst : ~CanPreempt(j)
+Probe_C10c == \A j \in Inst : el[j].preSince < 0
+Probe_C03 == \A i \in Inst : (el[i].leader /\ el[i].lostAt >= 0) => now <= el[i].lostAt + 1
+Probe_C06 == g.vacSince >= 0 => now <= g.vacSince + 2
 
 \* one definition per deviation, for "Dev <- D_<name>" in generated configurations
 D_attempt_while_leading == {"attempt_while_leading"}
@@ -54,5 +66,7 @@ D_stale_event_demotes == {"stale_event_demotes"}
 D_stop_keeps_claim == {"stop_keeps_claim"}
 D_takeover_ge == {"takeover_ge"}
 D_validation_first_error_demotes == {"validation_first_error_demotes"}
+D_validation_failure_notifies_unconditionally == {"validation_failure_notifies_unconditionally"}
+D_aborted_stop_skips_ondemote == {"aborted_stop_skips_ondemote"}
 D_watcher_demotion_without_callback == {"watcher_demotion_without_callback"}
 =============================================================================
